@@ -274,24 +274,7 @@ def gen_upstream_close(rng, setup):
     return R.relay_case(setup, pre + eof + post, mx)
 
 
-def with_reaps(rng, case):
-    """interleave idle-reaper events (clock far beyond / around / below the timeout; timeouts
-    positive, zero and negative) into a relay schedule"""
-    T = rng.choice([10, 10, 1, 0, 0, -1, -3, 2])
-    tu = T * R.UNIT
-
-    def elapsed():
-        return max(0, rng.choice([tu - 1, tu, tu + 1, tu + 1, 0, 1, tu + 5 * R.UNIT, 10 ** 7, 10 ** 9, rng.randrange(0, 40000)]))
-    ticks = []
-    p = rng.choice([0.2, 0.5, 1.0])
-    for t in case['ticks']:
-        while rng.random() < p * 0.6:
-            ticks.append(['R', elapsed()])
-        ticks.append(t)
-    ticks.append(['R', elapsed()])
-    if rng.random() < 0.5:
-        ticks.append(['R', tu + 1 + rng.randrange(0, 5000)])
-    return dict(case, ticks=ticks, timeout=T)
+with_reaps = R.with_reaps
 
 
 def gen_reap(rng):
